@@ -447,10 +447,17 @@ func main() {
 				{nil, {{1, false}, {2, false}}},
 				{nil, {{1, true}}, {{2, false}}},
 			}
-			per := *exh / len(sets)
+			// every set with the production threshold (everything goes to the urgent queue) and with threshold 0
+			// (low-priority requests are shunted to the second queue)
+			per := *exh / (2 * len(sets))
 			for i, ps := range sets {
-				n := genExhaustive(ps, 1024, 2, &id, &out, per)
-				hist[fmt.Sprintf("exhaustive-set%d", i)] = n
+				for _, th := range []int{1024, 0} {
+					// iterative deepening on the number of preemptions: all schedules with one preemption come before
+					// the (many more) schedules with two
+					n := genExhaustive(ps, th, 1, &id, &out, per/2)
+					n += genExhaustive(ps, th, 2, &id, &out, per-per/2)
+					hist[fmt.Sprintf("exhaustive-set%d-threshold%d", i, th)] = n
+				}
 			}
 		}
 		teardown()
